@@ -86,6 +86,13 @@ class ExprMixin(object):
             return self.lit_value(st, gl)
         if hasattr(__import__("builtins"), name):
             return SV(None, "callable", py=("builtin", name))
+        cexpr = self.src.module_consts.get((mod, name))
+        if cexpr is not None:
+            # module-level constant with a literal value
+            try:
+                return self.lit_value(st, ast.literal_eval(cexpr))
+            except Exception:
+                raise Undecided("module-level name %r is not a literal constant" % name)
         raise Undecided("unknown global name %r" % name)
 
     def resolve_class_name(self, name):
